@@ -511,6 +511,11 @@ func checkC17(c *Ctx) {
 					ok = false
 				}
 			}
+			if why := configInstalled(p, m); why != "" {
+				c.Bad("C17.4", namedOrString(T)+".Listen configures the decoder from this call's options", p.Pos(m.Pos()), why)
+			} else {
+				c.OK("C17.4", namedOrString(T)+".Listen configures the decoder from this call's options", p.Pos(m.Pos()), "on every successful path the whole configuration (or every field the decoder constructor consumes) is installed")
+			}
 			c.Check(ok, "C17.4", namedOrString(T)+".Listen installs the new callback on every successful path", p.Pos(m.Pos()), "a value carrying the onMsg parameter is stored into the port's state before every successful return", "Listen can succeed without installing the new callback (e.g. it reuses the decoder of a previous Listen): messages keep going to the old listener, whose stop function has already returned")
 		}
 	}
@@ -882,4 +887,200 @@ func startRollback(c *Ctx, p *Program) {
 	if n == 0 {
 		c.Unk("C17.3", "helper process start sites", "-", "no call of (*exec.Cmd).Start found in the process-backed driver")
 	}
+}
+
+// configInstalled: on every successful path of an In.Listen implementation the listen configuration of THIS call reaches
+// the port's state: either as a whole (handed to a constructor / captured by the installed closure) or field by field for
+// every field the decoder constructor drivers.NewReader consumes. "" = holds.
+func configInstalled(p *Program, m *ssa.Function) string {
+	if len(m.Params) < 3 {
+		return ""
+	}
+	conf := m.Params[2]
+	cst, ok := conf.Type().Underlying().(*types.Struct)
+	if !ok {
+		return ""
+	}
+	// fields the decoder constructor reads
+	required := map[string]bool{}
+	if nr := p.Func("drivers", "NewReader"); nr != nil && len(nr.Params) > 0 {
+		cp := nr.Params[0]
+		cells := map[ssa.Value]bool{cp: true}
+		for _, b := range nr.Blocks {
+			for _, in := range b.Instrs {
+				if st, ok := in.(*ssa.Store); ok && st.Val == ssa.Value(cp) {
+					cells[st.Addr] = true
+				}
+			}
+		}
+		for _, b := range nr.Blocks {
+			for _, in := range b.Instrs {
+				switch x := in.(type) {
+				case *ssa.Field:
+					if cells[x.X] {
+						required[x.X.Type().Underlying().(*types.Struct).Field(x.Field).Name()] = true
+					}
+				case *ssa.FieldAddr:
+					if cells[x.X] {
+						required[cst.Field(x.Field).Name()] = true
+					}
+				}
+			}
+		}
+	}
+	// does the port own a decoder (a field of type *drivers.Reader)?
+	hasDecoder := false
+	var scan func(t types.Type, depth int)
+	scan = func(t types.Type, depth int) {
+		n := namedOf(t)
+		if n == nil || depth > 2 {
+			return
+		}
+		st, ok := n.Underlying().(*types.Struct)
+		if !ok {
+			return
+		}
+		for i := 0; i < st.NumFields(); i++ {
+			ft := st.Field(i).Type()
+			if tPtr(tNamed("drivers", "Reader"))(p, ft) {
+				hasDecoder = true
+			} else if fn := namedOf(ft); fn != nil && fn.Obj().Pkg() == n.Obj().Pkg() {
+				scan(ft, depth+1)
+			}
+		}
+	}
+	if rt := m.Signature.Recv(); rt != nil {
+		scan(rt.Type(), 0)
+	}
+	if !hasDecoder {
+		required = map[string]bool{}
+	}
+	whole := map[ssa.Value]bool{conf: true}
+	part := map[ssa.Value]string{}
+	for changed := true; changed; {
+		changed = false
+		mark := func(v ssa.Value) {
+			if !whole[v] {
+				whole[v] = true
+				changed = true
+			}
+		}
+		markP := func(v ssa.Value, n string) {
+			if _, ok := part[v]; !ok {
+				part[v] = n
+				changed = true
+			}
+		}
+		for _, b := range m.Blocks {
+			for _, in := range b.Instrs {
+				switch x := in.(type) {
+				case *ssa.Store:
+					if whole[x.Val] {
+						if al, ok := x.Addr.(*ssa.Alloc); ok {
+							mark(al)
+						}
+					}
+				case *ssa.UnOp:
+					if x.Op == token.MUL {
+						if whole[x.X] {
+							mark(x)
+						}
+						if fa, ok := x.X.(*ssa.FieldAddr); ok && whole[fa.X] {
+							markP(x, cst.Field(fa.Field).Name())
+						}
+					}
+				case *ssa.Field:
+					if whole[x.X] {
+						markP(x, cst.Field(x.Field).Name())
+					}
+				case *ssa.MakeClosure:
+					// a closure capturing the configuration carries it only for ports without a byte decoder of their own:
+					// the decoder's options are set by its constructor, not by what the callback closes over
+					for _, bd := range x.Bindings {
+						if whole[bd] && !hasDecoder {
+							mark(x)
+						}
+					}
+				case *ssa.Call:
+					for _, a := range x.Common().Args {
+						if whole[a] {
+							mark(x)
+						}
+					}
+				case *ssa.MakeInterface:
+					if whole[x.X] {
+						mark(x)
+					}
+					if n, ok := part[x.X]; ok {
+						markP(x, n)
+					}
+				case *ssa.Convert:
+					if n, ok := part[x.X]; ok {
+						markP(x, n)
+					}
+				case *ssa.ChangeType:
+					if n, ok := part[x.X]; ok {
+						markP(x, n)
+					}
+				case *ssa.Phi:
+					for _, e := range x.Edges {
+						if whole[e] {
+							mark(x)
+						}
+					}
+				}
+			}
+		}
+	}
+	all := map[ssa.Instruction]bool{}
+	per := map[string]map[ssa.Instruction]bool{}
+	for _, b := range m.Blocks {
+		for _, in := range b.Instrs {
+			st, ok := in.(*ssa.Store)
+			if !ok {
+				continue
+			}
+			if _, isField := st.Addr.(*ssa.FieldAddr); !isField {
+				continue
+			}
+			if whole[st.Val] {
+				all[st] = true
+			}
+			if n, ok := part[st.Val]; ok {
+				if per[n] == nil {
+					per[n] = map[ssa.Instruction]bool{}
+				}
+				per[n][st] = true
+			}
+		}
+	}
+	var names []string
+	for n := range required {
+		names = append(names, n)
+	}
+	sort.Strings(names)
+	for _, r := range allReturns(m) {
+		if !isNilConst(retVal(r, len(r.Results)-1)) {
+			continue
+		}
+		if len(names) == 0 {
+			if canReachFromEntryAvoiding(m, r, all) {
+				return "Listen can succeed without handing this call's configuration to the port"
+			}
+			continue
+		}
+		for _, n := range names {
+			avoid := map[ssa.Instruction]bool{}
+			for k := range all {
+				avoid[k] = true
+			}
+			for k := range per[n] {
+				avoid[k] = true
+			}
+			if canReachFromEntryAvoiding(m, r, avoid) {
+				return fmt.Sprintf("Listen can succeed with the option %s of an earlier Listen still in force (the decoder is reused and this field of the new configuration is not installed): the options of this call do not select what is delivered", n)
+			}
+		}
+	}
+	return ""
 }
